@@ -368,6 +368,27 @@ def concat_scenario(args):
     return res
 
 
+def prefix_sweep(args):
+    """the set name in the header is <prefix>tables, NUL-terminated and padded to 8 bytes: every prefix length 1..17 (round-7 seed C15-r7m3)"""
+    flex_exe, n = args
+    wd = H.mkscratch("c15p")
+    try:
+        prefix = ("pqrstuvwxyzabcdefgh")[:n]
+        open(os.path.join(wd, "p.l"), "w").write('%%option noyywrap prefix="%s" tables-file="p.tables"\n%%%%\na+ return 1;\n.|\\n ;\n%%%%\n' % prefix)
+        p = subprocess.run([flex_exe, "-o", "p.c", "p.l"], cwd=wd, env=H.ENV, stdin=subprocess.DEVNULL, stdout=subprocess.PIPE, stderr=subprocess.PIPE, timeout=60)
+        if p.returncode != 0:
+            return {"n": n, "viol": "flex failed for a prefix of %d characters: %s" % (n, p.stderr.decode("latin-1")[-200:])}
+        try:
+            sets = tblfile.parse(open(os.path.join(wd, "p.tables"), "rb").read())
+        except (tblfile.FormatError, OSError) as e:
+            return {"n": n, "viol": "tables file for a prefix of %d characters does not follow the documented layout: %s" % (n, e)}
+        if len(sets) != 1 or sets[0]["name"] != (prefix + "tables").encode():
+            return {"n": n, "viol": "set name for prefix %r is %r" % (prefix, [x["name"] for x in sets])}
+        return {"n": n, "viol": None}
+    finally:
+        shutil.rmtree(wd, ignore_errors=True)
+
+
 def boundary_jobs(quick):
     """chain:N for N around the point where the number of DFA states (largest entry of yy_nxt / yy_chk / yy_def) crosses 127/128"""
     ns = range(118, 135) if quick else range(100, 150)
@@ -418,6 +439,13 @@ def run(tier):
             ck.violation(sig, "%s: %s" % (tag, what), case={"scenario": job})
         if len(ck.samples) < 10:
             ck.sample({"scenario": tag, "counts": res.get("counts"), "tables": res.get("table_ids")})
+    flex = ck.flex()
+    for job, r in pmap(prefix_sweep, [(flex.exe, n) for n in range(1, 18)], check=ck):
+        if "worker_exception" in r:
+            ck.broken.append("prefix sweep worker failed: %s" % r["worker_exception"])
+        elif r["viol"]:
+            ck.violation("C15:header-name:prefix-length-%d" % r["n"], r["viol"])
+        tot["prefix_lengths"] = tot.get("prefix_lengths", 0) + 1
     states = tot.get("truncations", 0) + tot.get("mutations", 0)
     ck.cov.update(states=max(states, 1), transitions=max(tot.get("mutations", 0), 1), traces_validated_against_impl=tot.get("scans", 0) + tot.get("concat_scans", 0),
                   evaluations=states + tot.get("scans", 0) + tot.get("concat_scans", 0), distinct_nontrivial=tot.get("mutations", 0) - tot.get("mutations_semantically_neutral", 0),
